@@ -14,6 +14,8 @@ ALSO = {
     "C01-tlvs-u16-sum": ["C16"], "C02-readbytes-zero-len-eof": ["C16", "C11", "C20"], "C03-cstringn-early-return": ["C20"],
     "C11-pk-default-or": ["C01"], "C11-tlv-zero-length-dropped": ["C16"], "C16-tlvs-skip-empty": ["C11"],
     "C05-unpack-s8-test": ["C08"], "C18-trim-trailing-nul": [], "C13-writer-double-put": [],
+    "C06-boundary-before-fallback": ["C14"], "C18-index-in-lowered-copy": ["C03"], "C16-serialize-full-value": ["C11"],
+    "C20-fixed-pad-written-count": ["C01"], "C10-cmpp30-activetest-fastpath": ["C03"],
 }
 
 
